@@ -145,6 +145,41 @@ extern "C" void cpp_xof(int a, size_t declared, const unsigned char *m, size_t n
     else { if (a) xof_cpp<ascon::xofa_with_output_length<64> >(m, n, out, outlen); else xof_cpp<ascon::xof_with_output_length<64> >(m, n, out, outlen); }
 }
 
+/* the named-function (cXOF) constructors: form 0 = (name, pointer, length), form 1 = (name, byte_array) */
+template <class X> static void cxof_cpp(const char *fn, const unsigned char *c, size_t cl, int form, const unsigned char *m, size_t n, unsigned char *out, size_t outlen)
+{
+    if (form == 0) { X x(fn, c, cl); x.absorb(m, n); x.squeeze(out, outlen); }
+    else { ascon::byte_array cb = ascon::bytes_from_data(c, cl); X x(fn, cb); x.absorb(m, n); x.squeeze(out, outlen); }
+}
+extern "C" void cpp_cxof(int a, size_t declared, const char *fn, const unsigned char *c, size_t cl, int form, const unsigned char *m, size_t n, unsigned char *out, size_t outlen)
+{
+    if (declared == 0) { if (a) cxof_cpp<ascon::xofa>(fn, c, cl, form, m, n, out, outlen); else cxof_cpp<ascon::xof>(fn, c, cl, form, m, n, out, outlen); }
+    else if (declared == 32) { if (a) cxof_cpp<ascon::xofa_with_output_length<32> >(fn, c, cl, form, m, n, out, outlen); else cxof_cpp<ascon::xof_with_output_length<32> >(fn, c, cl, form, m, n, out, outlen); }
+    else { if (a) cxof_cpp<ascon::xofa_with_output_length<64> >(fn, c, cl, form, m, n, out, outlen); else cxof_cpp<ascon::xof_with_output_length<64> >(fn, c, cl, form, m, n, out, outlen); }
+}
+
+/* chunked input through each overload of update / absorb: the message in three chunks cut at s1 <= s2; form 0 = (pointer, length), 1 = byte_array, 2 = std::string (may hold NUL characters) */
+#include <string>
+template <class H> static void hash_chunks(const unsigned char *m, size_t n, size_t s1, size_t s2, int form, unsigned char *out)
+{
+    H h; const size_t cut[4] = {0, s1, s2, n};
+    for (int i = 0; i < 3; i++) { const unsigned char *p = m + cut[i]; size_t l = cut[i + 1] - cut[i];
+        if (form == 0) h.update(p, l); else if (form == 1) h.update(ascon::bytes_from_data(p, l)); else h.update(std::string(reinterpret_cast<const char *>(p), l)); }
+    h.finalize(out);
+}
+template <class X> static void xof_chunks(const unsigned char *m, size_t n, size_t s1, size_t s2, int form, unsigned char *out)
+{
+    X x; const size_t cut[4] = {0, s1, s2, n};
+    for (int i = 0; i < 3; i++) { const unsigned char *p = m + cut[i]; size_t l = cut[i + 1] - cut[i];
+        if (form == 0) x.absorb(p, l); else if (form == 1) x.absorb(ascon::bytes_from_data(p, l)); else x.absorb(std::string(reinterpret_cast<const char *>(p), l)); }
+    if (form == 1) { ascon::byte_array o = x.squeeze(13); ascon::byte_array o2 = x.squeeze(0); ascon::byte_array o3 = x.squeeze(19); memcpy(out, o.data(), 13); memcpy(out + 13, o3.data(), 19); if (o2.size() != 0) out[0] ^= 0xff; }
+    else { x.squeeze(out, 13); x.squeeze(out + 13, 19); }
+}
+extern "C" void cpp_hash_chunks(int a, const unsigned char *m, size_t n, size_t s1, size_t s2, int form, unsigned char *out)
+{ if (a) hash_chunks<ascon::hasha>(m, n, s1, s2, form, out); else hash_chunks<ascon::hash>(m, n, s1, s2, form, out); }
+extern "C" void cpp_xof_chunks(int a, const unsigned char *m, size_t n, size_t s1, size_t s2, int form, unsigned char *out)
+{ if (a) xof_chunks<ascon::xofa>(m, n, s1, s2, form, out); else xof_chunks<ascon::xof>(m, n, s1, s2, form, out); }
+
 /* copies of the hash / XOF classes: the message is absorbed in two halves; between them the object is copy-constructed (0), assigned to another used object (1) or assigned to itself (2);
  * the result is taken from the copy (or from the object itself for mode 2) */
 template <class X> static void xof_copy(const unsigned char *m, size_t n, unsigned char *out, size_t outlen, int mode, int squeezed_first)
